@@ -33,6 +33,7 @@ import (
 	"github.com/zmap/zcrypto/tls"
 	"verifmc/internal/ev"
 	"verifmc/internal/fx"
+	"verifmc/internal/tlsx"
 )
 
 type recConn struct {
@@ -219,12 +220,11 @@ func runEMSProbe(c *ev.Ctx, col *collector, replay bool) {
 
 func emsOne(c *ev.Ctx, ec emsCase, cert stdtls.Certificate, key *stdrsa.PrivateKey) (outcome, sig string, w emsWitness) {
 	w.Spec.Fn, w.Case = "ems-handshake", ec
-	cp, sp := net.Pipe()
+	// in-memory duplex with structural stall detection (internal/tlsx): no deadline,
+	// no wall-clock wait; each side closes its end when its handshake fails.
+	cp, sp, pn := tlsx.NewPipe()
 	defer cp.Close()
 	defer sp.Close()
-	dl := time.Now().Add(20 * time.Second)
-	cp.SetDeadline(dl)
-	sp.SetDeadline(dl)
 
 	srvLog, cliLog := &lockedBuf{}, &lockedBuf{}
 	srvCfg := &stdtls.Config{Certificates: []stdtls.Certificate{cert}, MinVersion: stdtls.VersionTLS10, MaxVersion: stdtls.VersionTLS12,
@@ -236,6 +236,8 @@ func emsOne(c *ev.Ctx, ec emsCase, cert stdtls.Certificate, key *stdrsa.PrivateK
 		err := srv.Handshake()
 		if err != nil {
 			sp.Close()
+		} else {
+			pn.SetIdle(1, true)
 		}
 		srvErr <- err
 	}()
@@ -270,13 +272,13 @@ func emsOne(c *ev.Ctx, ec emsCase, cert stdtls.Certificate, key *stdrsa.PrivateK
 	if cliE != nil {
 		cp.Close()
 		w.ClientError = cliE.Error()
+	} else {
+		pn.SetIdle(0, true)
 	}
-	var sE error
-	select {
-	case sE = <-srvErr:
-	case <-time.After(25 * time.Second):
-		c.Incomplete("ems probe " + ec.Name + ": standard library server did not finish (no verdict)")
-		return "no-verdict(server timeout)", "", w
+	sE := <-srvErr // structural: the server completes, fails, or the transport detects the stall and closes
+	if pn.Stalled {
+		c.Incomplete("ems probe " + ec.Name + ": both endpoints blocked reading (no verdict)")
+		return "no-verdict(stalled)", "", w
 	}
 	if sE != nil {
 		w.ServerError = sE.Error()
